@@ -3,9 +3,12 @@
 The real hio.core.http.serving.Server (with the tcp.Server / tcp.ServerTls it builds itself from
 `tymeout=`) is driven over the fake socket module of the C11 driver and a Tymist whose tyme is set
 explicitly.  One connection is accepted in the first service pass; every later pass advances virtual
-tyme, lets the client deliver some chunks of an HTTP request (never completing it, or completing a
-persistent HTTP/1.1 request) and runs Server.service().  After each pass the connection's closed
-flag, the Remoter's tymeout and tymer are observed and compared with the model (coq/Model/Idle.v).
+tyme, lets the client deliver some chunks of an HTTP request (unfinished, completing a persistent
+HTTP/1.1 request, or completing a non-persistent `Connection: close` request), fixes how many bytes
+the (fake) kernel accepts from one send() in this pass (0 = would block: the peer is not reading) and
+runs Server.service().  After each pass the connection's closed flag, the Remoter's tymeout, tymer
+and len(txbs) are observed and compared with the model (coq/Model/Idle.v).  "Traffic" is bytes that
+actually moved: received chunks and bytes the kernel took; a send attempt that moves nothing is not.
 """
 from harness.core import coq_N, coq_Z, coq_list, coq_bool
 from harness.drivers import c11 as fk
@@ -18,19 +21,25 @@ COQ_BRANCHES = ("Idle.case_branches", "Idle.n_branches")
 SHARD = 200
 RULE = ("one connection (plain or TLS) to a real http.Server with tymeout T in {-2..12} accepted at tyme t0; 2-30 "
         "service passes, each after advancing virtual tyme by 0..2T+2 units, with the client idle, delivering 1-4 "
-        "chunks of an unfinished request head, or completing a persistent (HTTP/1.1 keep-alive) request; pass times "
-        "are concentrated within one unit of the window edge last_traffic+T; a case is non-trivial when T > 0 and "
-        "some pass with traffic happens within one unit of the deadline of that moment (either side)")
-MODELLED = ["virtual tyme as integers (the harness uses tymes that are integer multiples of a unit of 1, 1/4, 1/32 or 8 s, so float arithmetic is exact; other fractional tymes are not exercised)",
-            "HTTP request content beyond: number of received chunks per pass and whether a persistent request head "
-            "completes in the pass",
-            "sockets (fake socket module shared with C11)"]
+        "chunks of an unfinished request head, completing a persistent (HTTP/1.1 keep-alive) request or completing a "
+        "non-persistent (Connection: close) request whose response is queued in txbs; per pass the fake kernel accepts "
+        "0 (would block), 7, 40 or all bytes of the one send attempt; pass times are concentrated within one unit of "
+        "the window edge last_bytes_moved+T; tyme unit 1, 1/4, 1/32 or 8 s; a case is non-trivial when T > 0 and "
+        "either a pass with traffic falls within one unit of the deadline of that moment or a send attempt with "
+        "pending output is blocked")
+MODELLED = ["virtual tyme as integers (the harness uses tymes that are integer multiples of a unit of 1, 1/4, 1/32 or 8 s, so "
+            "float arithmetic is exact; other fractional tymes are not exercised)",
+            "HTTP content reduced to: number of received chunks per pass, whether a persistent / non-persistent request "
+            "head completes in the pass, and the response size R (observed, the same for every request of a case)",
+            "the kernel's send behaviour (bytes accepted per send() of a pass, scripted on the fake socket)",
+            "sockets (fake socket module shared with C11); the server is wound to a Tymist"]
 
 CA = 0
+ALL = 1000000     # cap meaning "the kernel takes everything"
 
 
 def directed():
-    P = lambda dt, *a: [dt, list(a)]
+    P = lambda dt, *a, cap=ALL: [dt, list(a), cap]
     return [
         # never used: closes at t0+T exactly, not before
         {"tls": False, "T": 5, "t0": 3, "passes": [P(0, "idle"), P(4, "idle"), P(1, "idle"), P(1, "idle")]},
@@ -55,20 +64,52 @@ def directed():
         {"tls": False, "T": 96, "t0": 5, "unit": 0.03125, "passes": [P(0, "idle"), P(95, "rx", 2), P(95, "idle"), P(1, "idle")]},
         # closed: later traffic is ignored
         {"tls": False, "T": 2, "t0": 0, "passes": [P(0, "idle"), P(2, "rx", 1), P(1, "rx", 1), P(1, "req", 1)]},
+        # non-persistent request, reader stalled from the start: the blocked send attempts are not traffic,
+        # closed T after the request arrived (seeded change C12-1 witness)
+        {"tls": False, "T": 4, "t0": 0, "passes": [P(0, "rx", 1), P(1, "reqclose", 1, cap=0), P(1, "idle", cap=0),
+                                                    P(1, "idle", cap=0), P(1, "idle", cap=0), P(1, "idle", cap=0),
+                                                    P(1, "idle", cap=0)]},
+        # reader takes part of the response then stalls: closed T after the last bytes went out
+        {"tls": False, "T": 5, "t0": 0, "passes": [P(0, "reqclose", 1, cap=40), P(2, "idle", cap=7), P(2, "idle", cap=0),
+                                                    P(2, "idle", cap=0), P(1, "idle", cap=0), P(1, "idle", cap=0)]},
+        # the same over TLS (RemoterTls.send)
+        {"tls": True, "T": 5, "t0": 0, "passes": [P(0, "reqclose", 1, cap=40), P(2, "idle", cap=7), P(2, "idle", cap=0),
+                                                   P(2, "idle", cap=0), P(1, "idle", cap=0), P(1, "idle", cap=0)]},
+        # slow but steady reader: bytes move in every window, closed only when the response is out
+        {"tls": False, "T": 3, "t0": 0, "passes": [P(0, "reqclose", 2, cap=40)] + [P(2, "idle", cap=40)] * 8},
+        {"tls": True, "T": 3, "t0": 0, "passes": [P(0, "reqclose", 2, cap=40)] + [P(2, "idle", cap=40)] * 8},
+        # response out at once: closed in the next pass because it is finished, not idle
+        {"tls": False, "T": 9, "t0": 0, "passes": [P(0, "reqclose", 1), P(1, "idle"), P(1, "idle")]},
+        # persistent response stuck, then a non-persistent request; bytes after the request are ignored by the parser
+        {"tls": False, "T": 4, "t0": 0, "passes": [P(0, "req", 1, cap=0), P(9, "idle", cap=7), P(1, "reqclose", 2, cap=0),
+                                                    P(20, "req", 1, cap=40), P(1, "rx", 2), P(1, "idle"), P(1, "idle")]},
+        # client keeps sending while the response is stuck: that is traffic
+        {"tls": False, "T": 3, "t0": 0, "passes": [P(0, "reqclose", 1, cap=0), P(2, "rx", 1, cap=0), P(2, "rx", 1, cap=0),
+                                                    P(2, "idle", cap=0), P(1, "idle", cap=0)]},
     ]
 
 
 def generate(rng, tier):
-    n = 400 if tier == "quick" else 8000
+    n = 500 if tier == "quick" else 9000
     out = []
     for _ in range(n):
         T = rng.choice([1, 2, 3, 4, 5, 5, 7, 12, 0, -2]) if rng.random() < 0.9 else rng.randint(-2, 12)
         t0 = rng.choice([0, 0, 1, 7])
         tls = rng.random() < 0.4
-        passes = [[0, rng.choice([["idle"], ["idle"], ["rx", 1]])]]
-        # track the window edge to aim pass times at it
-        last, now, persisted = t0, t0, False
-        if passes[0][1][0] == "rx":
+        style = rng.random()           # < 0.45: a non-persistent request early, then mostly send behaviour
+        stall = rng.random() < 0.5     # the reader tends to stall
+        def cap():
+            if style >= 0.45 and rng.random() < 0.7:
+                return ALL
+            return rng.choices([0, 7, 40, ALL], [6, 1, 2, 1] if stall else [2, 2, 3, 3])[0]
+        first = rng.choice([["idle"], ["idle"], ["rx", 1]] + ([["reqclose", 1]] * 2 if style < 0.3 else []))
+        R_EST = 225                    # size of one response (only used to aim pass times; the model uses the observed size)
+        c0 = cap()
+        passes = [[0, first, c0]]
+        last, now, persisted, responding = t0, t0, False, first[0] == "reqclose"
+        pend = R_EST if responding else 0
+        pend -= min(pend, c0)
+        if first[0] != "idle":
             last = now
         for _ in range(rng.choice([2, 4, 6, 10, 16, 30])):
             r = rng.random()
@@ -81,16 +122,28 @@ def generate(rng, tier):
                 dt = rng.randint(0, 2 * abs(T) + 2)
             now += dt
             q = rng.random()
-            if q < 0.35:
+            if responding:
+                a = ["idle"] if q < 0.85 else (["rx", rng.choice([1, 2])] if q < 0.96 else ["req", 1])
+            elif q < 0.35:
                 a = ["idle"]
-            elif q < 0.85 or (persisted and q < 0.93):
+            elif q < 0.75 or (persisted and q < 0.9):
                 a = ["rx", rng.choice([1, 1, 2, 3, 4])]
-            else:
+            elif style < 0.45 and not persisted and q < 0.97:
+                a = ["reqclose", rng.choice([1, 1, 2])]
+            elif q < 0.93:
                 a = ["req", rng.choice([1, 1, 2])]
-                persisted = True
-            if a[0] != "idle":
+            else:
+                a = ["reqclose", rng.choice([1, 2])]
+            if not responding and a[0] in ("req", "reqclose"):
+                pend += R_EST
+                persisted = persisted or a[0] == "req"
+                responding = a[0] == "reqclose"
+            c = cap()
+            sent = min(c, pend)
+            pend -= sent
+            if a[0] != "idle" or sent:
                 last = now
-            passes.append([dt, a])
+            passes.append([dt, a, c])
         out.append({"tls": tls, "T": T, "t0": t0, "passes": passes, "unit": rng.choice([1.0, 1.0, 0.25, 0.03125, 8.0])})
     return out
 
@@ -111,17 +164,21 @@ class Feeder:
             return b"GET /idle/%d HTTP/1.1\r\n" % self.n
         return b"X-Pad-%d: abc\r\n" % self.n
 
-    def finish(self):
+    def finish(self, close=False):
         self.n += 1
+        tail = b"Connection: close\r\n\r\n" if close else b"\r\n"
         if not self.in_head:
-            return b"GET /idle/%d HTTP/1.1\r\nHost: x\r\n\r\n" % self.n
+            return b"GET /idle/%d HTTP/1.1\r\nHost: x\r\n" % self.n + tail
         self.in_head = False
-        return b"\r\n"
+        return tail
+
+
+BODY = b"0123456789abcdef" * 6
 
 
 def _app(environ, start_response):
-    start_response("200 OK", [("Content-Type", "text/plain"), ("Content-Length", "2")])
-    return [b"ok"]
+    start_response("200 OK", [("Content-Type", "text/plain"), ("Content-Length", str(len(BODY)))])
+    return [BODY]
 
 
 def _as_int(x):
@@ -129,6 +186,11 @@ def _as_int(x):
     if not x.is_integer():
         raise AssertionError(f"non-integer tyme value {x!r}")
     return int(x)
+
+
+def _norm(p):
+    """pass entries are [dt, action] (cap = everything) or [dt, action, cap]"""
+    return (p[0], p[1], p[2] if len(p) > 2 else ALL)
 
 
 def run_impl(case):
@@ -148,19 +210,23 @@ def run_impl(case):
             raise AssertionError("reopen failed")
         servant = srv.servant
         ca = fk.ca_of(CA)
-        feeder, ix, core, persisted = Feeder(), None, None, False
-        for dt, a in case["passes"]:
+        feeder, ix, core = Feeder(), None, None
+        sizes, total_before = [], 0
+        for p in case["passes"]:
+            dt, a, cap = _norm(p)
             tymist.tyme = tymist.tyme + float(dt) * u
+            world.send_cap = None if cap >= ALL else cap
             chunks = []
             if a[0] == "rx":
                 chunks = [feeder.partial() for _ in range(a[1])]
-            elif a[0] == "req":
-                chunks = [feeder.partial() for _ in range(a[1] - 1)] + [feeder.finish()]
+            elif a[0] in ("req", "reqclose"):
+                chunks = [feeder.partial() for _ in range(a[1] - 1)] + [feeder.finish(close=a[0] == "reqclose")]
             if core is None:
                 # first pass: the connection is accepted inside this service(); its bytes are already in flight
                 servant.ss.core.queue.append([CA, False, ["ok"], chunks])
             elif core.closes == 0:
                 core.chunks.extend(chunks)
+            sent_before = len(core.sent) if core is not None else 0
             srv.service()
             if core is None:
                 ix = servant.ixes.get(ca)
@@ -170,33 +236,48 @@ def run_impl(case):
             closed = core.closes > 0
             if closed != (ca not in servant.ixes):
                 raise AssertionError("socket closed but connection still listed (or the reverse)")
-            req = srv.reqs.get(ca)
-            persisted = persisted or (bool(req.persisted) if req is not None else False)   # sticky
+            total = len(core.sent) + (0 if closed else len(ix.txbs))
+            if not closed and total > total_before:
+                sizes.append(total - total_before)      # a response was queued in this pass
+            if not closed:
+                total_before = total
             out.append({"closed": closed, "tmo": _as_int(ix.tymeout / u), "st": _as_int(ix.tymer._start / u),
-                        "sp": _as_int(ix.tymer._stop / u), "persisted": persisted, "now": _as_int(tymist.tyme / u)})
+                        "sp": _as_int(ix.tymer._stop / u), "pend": 0 if closed else len(ix.txbs),
+                        "sent": len(core.sent) - sent_before, "now": _as_int(tymist.tyme / u)})
+        world.send_cap = None
         srv.close()
         leaked = world.open_ids()
-    return {"passes": out, "leaked": leaked}
+    if len(set(sizes)) > 1:
+        raise AssertionError(f"responses of different sizes {sizes}")
+    return {"passes": out, "leaked": leaked, "R": sizes[0] if sizes else 0}
 
 
 # --------------------------------------------------------------------------- oracle
 
-def _expect(case):
-    """The property, computed from the schedule alone: list of (must_be_closed, why) per pass."""
+def _expect(case, obs):
+    """The property per pass, from the schedule and the bytes the implementation was seen to move:
+    (must_close, may_close, last_moved_before, persistent)."""
     T, now = case["T"], case["t0"]
-    last, persisted, closed = case["t0"], False, False
+    last, persisted, responding, closed, pend_prev = case["t0"], False, False, False, 0
     exp = []
-    for dt, a in case["passes"]:
+    for p, o in zip(case["passes"], obs["passes"]):
+        dt, a, cap = _norm(p)
         now += dt
         before = last
-        if not closed and T > 0 and not persisted and now >= last + T:
+        idle_due = (not closed) and T > 0 and not persisted and now >= last + T
+        done_due = (not closed) and responding and pend_prev == 0     # response finished and completely out
+        exp.append((idle_due, idle_due or done_due, before, persisted))
+        if o["closed"]:
             closed = True
         if not closed:
-            if a[0] != "idle":
+            if a[0] != "idle" or o["sent"] > 0:
                 last = now
-            if a[0] == "req":
-                persisted = True
-        exp.append((closed, before, persisted))
+            if not responding:
+                if a[0] == "req":
+                    persisted = True
+                elif a[0] == "reqclose":
+                    responding = True
+            pend_prev = o["pend"]
     return exp
 
 
@@ -204,13 +285,15 @@ def oracle(case, obs):
     if obs["leaked"]:
         return f"sockets {obs['leaked']} still open after Server.close()"
     T = case["T"]
-    for i, ((want, last, pers), o) in enumerate(zip(_expect(case), obs["passes"])):
-        if want and not o["closed"]:
-            return (f"pass {i} at tyme {o['now']}: non-persistent connection had no traffic since {last} "
-                    f"(tymeout {T}) but is still open")
-        if o["closed"] and not want:
-            why = "persistent" if pers else ("tymeout <= 0" if T <= 0 else f"last traffic at {last}, tymeout {T}")
+    was_closed = False
+    for i, ((must, may, last, pers), o) in enumerate(zip(_expect(case, obs), obs["passes"])):
+        if must and not o["closed"]:
+            return (f"pass {i} at tyme {o['now']}: non-persistent connection had no bytes moved since {last} "
+                    f"(tymeout {T}, {obs['passes'][i - 1]['pend'] if i else 0} bytes pending) but is still open")
+        if o["closed"] and not was_closed and not may:
+            why = "persistent" if pers else ("tymeout <= 0" if T <= 0 else f"bytes last moved at {last}, tymeout {T}")
             return f"pass {i} at tyme {o['now']}: connection closed for idleness although {why}"
+        was_closed = o["closed"]
     return None
 
 
@@ -222,12 +305,15 @@ def nontrivial(case, obs):
     T, now, last = case["T"], case["t0"], case["t0"]
     if T <= 0:
         return False
-    hit = False
-    for (dt, a), o in zip(case["passes"], obs["passes"]):
+    hit, pend = False, 0
+    for p, o in zip(case["passes"], obs["passes"]):
+        dt, a, cap = _norm(p)
         now += dt
         if a[0] != "idle" and abs(now - (last + T)) <= 1:
             hit = True
-        if a[0] != "idle" and not o["closed"]:
+        if not o["closed"] and o["pend"] > 0 and o["sent"] == 0 and cap == 0:
+            hit = True
+        if (a[0] != "idle" or o["sent"] > 0) and not o["closed"]:
             last = now
     return hit
 
@@ -237,45 +323,49 @@ def nontrivial(case, obs):
 def _act(a):
     if a[0] == "idle":
         return "Idle.Quiet"
-    if a[0] == "rx":
-        return f"(Idle.Rx {coq_N(a[1])})"
-    return f"(Idle.Req {coq_N(a[1])})"
+    c = {"rx": "Idle.Rx", "req": "Idle.Req", "reqclose": "Idle.ReqClose"}[a[0]]
+    return f"({c} {coq_N(a[1])})"
 
 
 def to_coq(case, obs):
     now, sched = case["t0"], []
-    for dt, a in case["passes"]:
+    for p in case["passes"]:
+        dt, a, cap = _norm(p)
         now += dt
-        sched.append(f"({coq_Z(now)}, {_act(a)})")
+        sched.append(f"({coq_Z(now)}, {_act(a)}, {coq_N(cap)})")
     ob = []
     for o in obs["passes"]:
-        track = (not o["closed"]) and not o["persisted"]
-        ob.append("(%s, %s, %s, %s)" % (coq_bool(o["closed"]), coq_Z(o["tmo"]),
-                                         coq_Z(o["st"] if track else 0), coq_Z(o["sp"] if track else 0)))
-    return ("{| Idle.k_T := %s; Idle.k_t0 := %s; Idle.k_sched := %s; Idle.k_obs := %s |}" % (
-        coq_Z(case["T"]), coq_Z(case["t0"]), coq_list(sched, "Z * Idle.action"),
-        coq_list(ob, "bool * Z * Z * Z")))
+        op = not o["closed"]
+        ob.append("(%s, %s, %s, %s, %s)" % (coq_bool(o["closed"]), coq_Z(o["tmo"]), coq_Z(o["st"] if op else 0),
+                                             coq_Z(o["sp"] if op else 0), coq_N(o["pend"] if op else 0)))
+    return ("{| Idle.k_T := %s; Idle.k_t0 := %s; Idle.k_R := %s; Idle.k_sched := %s; Idle.k_obs := %s |}" % (
+        coq_Z(case["T"]), coq_Z(case["t0"]), coq_N(obs["R"]), coq_list(sched, "Idle.step"),
+        coq_list(ob, "bool * Z * Z * Z * N")))
 
 
 def shrink(case):
-    ps = case["passes"]
+    ps = [list(_norm(p)) for p in case["passes"]]
     for i in range(1, len(ps)):
         q = [list(p) for p in ps[:i] + ps[i + 1:]]
         if i < len(ps) - 1:
             q[i][0] += ps[i][0]
         yield dict(case, passes=q)
-    for i, (dt, a) in enumerate(ps):
+    for i, (dt, a, cap) in enumerate(ps):
         if a[0] == "rx" and a[1] > 1:
-            yield dict(case, passes=ps[:i] + [[dt, ["rx", a[1] - 1]]] + ps[i + 1:])
+            yield dict(case, passes=ps[:i] + [[dt, ["rx", a[1] - 1], cap]] + ps[i + 1:])
+        if cap not in (0, ALL):
+            yield dict(case, passes=ps[:i] + [[dt, a, ALL]] + ps[i + 1:])
 
 
 def distribution(cases, obs):
     d = {"tls": sum(1 for c in cases if c["tls"]), "T<=0": sum(1 for c in cases if c["T"] <= 0),
-         "closed_by_timeout": 0, "persisted": 0}
+         "closed": 0, "with_nonpersistent_response": 0, "with_blocked_send_while_pending": 0}
     for c, o in zip(cases, obs):
         if isinstance(o, dict) and "passes" in o and o["passes"]:
-            d["closed_by_timeout"] += 1 if o["passes"][-1]["closed"] else 0
-            d["persisted"] += 1 if any(p["persisted"] for p in o["passes"]) else 0
+            d["closed"] += 1 if o["passes"][-1]["closed"] else 0
+            d["with_nonpersistent_response"] += 1 if any(_norm(p)[1][0] == "reqclose" for p in c["passes"]) else 0
+            d["with_blocked_send_while_pending"] += 1 if any(
+                (not q["closed"]) and q["pend"] > 0 and q["sent"] == 0 for q in o["passes"]) else 0
     return d
 
 
